@@ -320,7 +320,8 @@ package xixi_kv
 
 // the marker's view of a finished merge whose adoption may have been interrupted any number of times:
 // each output file is still in the merge directory, or already sits in the data directory; same for the hint file
-//@ pred K_adopt(db) = (forall id :: {mergedC(id)} 0 <= id && id < markerJ(fs[fname(mergeDirOf(db.options.DirPath), 0, datafile.MergeFinishedFileSuffix)]) ==> fs[fname(mergeDirOf(db.options.DirPath), id, datafile.DataFileSuffix)] == mergedC(id) || (fs[fname(mergeDirOf(db.options.DirPath), id, datafile.DataFileSuffix)] == 0 && fs[fname(db.options.DirPath, id, datafile.DataFileSuffix)] == mergedC(id))) && (fs[fname(mergeDirOf(db.options.DirPath), 0, datafile.HintFileSuffix)] == hintC || (fs[fname(mergeDirOf(db.options.DirPath), 0, datafile.HintFileSuffix)] == 0 && fs[fname(db.options.DirPath, 0, datafile.HintFileSuffix)] == hintC))
+//@ pred K_adoptDir(D) = (forall id :: {mergedC(id)} 0 <= id && id < markerJ(fs[fname(mergeDirOf(D), 0, datafile.MergeFinishedFileSuffix)]) ==> fs[fname(mergeDirOf(D), id, datafile.DataFileSuffix)] == mergedC(id) || (fs[fname(mergeDirOf(D), id, datafile.DataFileSuffix)] == 0 && fs[fname(D, id, datafile.DataFileSuffix)] == mergedC(id))) && (fs[fname(mergeDirOf(D), 0, datafile.HintFileSuffix)] == hintC || (fs[fname(mergeDirOf(D), 0, datafile.HintFileSuffix)] == 0 && fs[fname(D, 0, datafile.HintFileSuffix)] == hintC))
+//@ pred K_adopt(db) = K_adoptDir(db.options.DirPath)
 
 //@ func (*xixi_kv.DB).mergePath
 //@   trusted
@@ -363,3 +364,102 @@ package xixi_kv
 //@     invariant [prefix-removed] forall id :: {fs[fname(db.options.DirPath, id, datafile.DataFileSuffix)]} mergedFiles <= id && id < fileID ==> fs[fname(db.options.DirPath, id, datafile.DataFileSuffix)] == 0
 //@     invariant [others-untouched] forall p :: {fs[p]} !((fnameDir(p) == db.options.DirPath || fnameDir(p) == mergeDirOf(db.options.DirPath)) && fnameSuf(p) == datafile.DataFileSuffix && fnameId(p) < fileID && p == fname(fnameDir(p), fnameId(p), datafile.DataFileSuffix)) ==> fs[p] == old(fs)[p]
 //@     invariant [bounds] 0 <= fileID && fileID <= mergeID
+
+// ---------------------------------------------------------------------------------------------
+// Open / Close: directory lock, recovery
+// ---------------------------------------------------------------------------------------------
+
+//@ func xixi_kv.checkOptions
+//@   props C13 C16
+//@   ensures [valid] result == nil ==> options.DataFileSize > 0 && (options.SyncStrategy == Threshold ==> options.BytesPerSync > 0)
+//@   modifies nothing
+
+// trusted: depends on os.ReadDir returning entries sorted by name and on the %09d file names
+//@ func (*xixi_kv.DB).loadDataFiles
+//@   trusted
+//@   io_effect
+//@   unshared db
+//@   requires [db] db.olderFiles != nil
+//@   ensures [foreign-errors] result1 == ErrDataDirectoryCorrupted || !engineErr(result1)
+//@   ensures [files] result1 == nil ==> (len(result0) == 0 ==> db.activeFile == old(db.activeFile)) && (len(result0) > 0 ==> db.activeFile != nil && fresh(db.activeFile) && INV_df(db.activeFile) && !db.activeFile.closed && db.activeFile.kind == datafile.DataFileSuffix && len(db.activeFile.bufferedWrites) == 0 && owned(db.activeFile.headerBuf) && fresh(db.activeFile.headerBuf)) && olderIds(db) && olderInv(db) && olderFlushed(db)
+//@   ensures [ids] result1 == nil ==> (forall i :: {result0[i]} 0 <= i && i < len(result0) ==> result0[i] == db.activeFile.ID || has(db.olderFiles, result0[i]))
+//@   ensures [merge-dir-untouched] forall p :: {fs[p]} fnameDir(p) != db.options.DirPath ==> fs[p] == old(fs)[p]
+//@   modifies db.activeFile, db.olderFiles[*]
+
+//@ func (*xixi_kv.DB).loadIndexFromHintFile
+//@   props C18 C02 C16
+//@   io_effect
+//@   unshared db
+//@   requires [db] db.index != nil && ACC(db) && db.totalSize == 0
+//@   ensures [foreign-errors] !engineErr(result1)
+//@   assume  [hint-keys-are-distinct-and-counters-do-not-overflow] result1 == nil ==> ACC(db) && db.totalSize <= 4611686018427387904 && db.reclaimSize == 0
+//@   modifies db.totalSize, db.index.model, db.index.count, db.index.live
+//@   loop 1
+//@     invariant [reader] INV_reader(reader) && reader.dataFile.kind == datafile.HintFileSuffix && db.index != nil && reader.dataFile == hintFile
+
+//@ func xixi_kv.Open
+//@   props C16 C02 C09
+//@   io_effect
+//@   per_return
+//@   requires [k-adopt] K_adoptDir(options.DirPath) && fnameSuf(options.DirPath) == 0
+//@   ensures [lock-held-on-success] result1 == nil ==> result0 != nil && result0.fileLock != nil && result0.fileLock == result_of("flock.New") && result0.fileLock.held
+//@   ensures [lock-released-on-error] result1 != nil && called("flock.New") ==> !result_of("flock.New").held
+//@   ensures [rejected-error] called("(*flock.Flock).TryLock") && !result_of("(*flock.Flock).TryLock", 0) && result_of("(*flock.Flock).TryLock", 1) == nil ==> result1 == ErrDatabaseIsUsing && result0 == nil
+//@   ensures [rejected-open-is-inert] called("(*flock.Flock).TryLock") && !result_of("(*flock.Flock).TryLock", 0) ==> io_calls() == 2
+//@   ensures [err-no-db] result1 != nil ==> result0 == nil
+//@   at (*xixi_kv.DB).loadMergeFiles assert [adoption-under-the-directory-lock] result_of("flock.New").held
+//@   at (*xixi_kv.DB).loadDataFiles assert [load-under-the-directory-lock] result_of("flock.New").held && called("(*xixi_kv.DB).loadMergeFiles")
+//@   at (*xixi_kv.DB).loadIndexFromDataFiles assert [scan-after-hint] result_of("flock.New").held
+//@   modifies nothing
+
+//@ func (*xixi_kv.DB).Close
+//@   props C16 C13 C09 C02
+//@   panics_ok
+//@   per_return
+//@   requires [open-db] db.mu != nil && !db.mu.heldW && !db.mu.heldR && db.fileLock != nil && db.fileLock.held && db.activeFile != nil && db.activeFile.ReadWriter != nil && !db.activeFile.closed && db.olderFiles != nil && (forall id :: {db.olderFiles[id]} has(db.olderFiles, id) ==> db.olderFiles[id] != nil && db.olderFiles[id].ReadWriter != nil && !db.olderFiles[id].closed && db.olderFiles[id].ID == id && db.olderFiles[id] != db.activeFile)
+//@   ensures [released] !db.fileLock.held
+//@   ensures [unlocked] !db.mu.heldW && !db.mu.heldR
+//@   ensures [all-flushed] result == nil ==> old(db.activeFile).closed && old(db.activeFile).ReadWriter.closed && old(db.activeFile).ReadWriter.durable == old(db.activeFile).ReadWriter.size && (forall id :: {old(db.olderFiles[id])} old(has(db.olderFiles, id)) ==> old(db.olderFiles[id]).closed && old(db.olderFiles[id]).ReadWriter.closed && old(db.olderFiles[id]).ReadWriter.durable == old(db.olderFiles[id]).ReadWriter.size)
+//@   modifies db.mu.heldW, db.mu.sections, db.fileLock.held, db.olderFiles, type:datafile.DataFile.closed, type:fio.ReadWriter.closed, type:fio.ReadWriter.durable
+//@   loop 1
+//@     invariant [closed-so-far] forall id :: {db.olderFiles[id]} seen(id) ==> db.olderFiles[id].closed && db.olderFiles[id].ReadWriter.closed && db.olderFiles[id].ReadWriter.durable == db.olderFiles[id].ReadWriter.size
+//@     invariant [kept] db.mu.heldW && db.fileLock.held && db.olderFiles == old(db.olderFiles) && (forall id :: {db.olderFiles[id]} has(db.olderFiles, id) ==> db.olderFiles[id] != nil && db.olderFiles[id].ReadWriter != nil && db.olderFiles[id].ID == id && (!seen(id) ==> !db.olderFiles[id].closed)) && db.activeFile == old(db.activeFile) && old(db.activeFile).closed && old(db.activeFile).ReadWriter.closed && old(db.activeFile).ReadWriter.durable == old(db.activeFile).ReadWriter.size && db.mu == old(db.mu) && db.fileLock == old(db.fileLock)
+
+// one step of index recovery: a put or a delete, with the space accounting of the live path
+//@ func (*xixi_kv.DB).loadIndexFromDataFiles$1
+//@   props C02 C17
+//@   requires [db]  db != nil && db.index != nil && pos != nil
+//@   requires [no-overflow] db.totalSize <= 6917529027641081856 && db.reclaimSize <= 6917529027641081856
+//@   requires [acc] ACC(db)
+//@   ensures [acc]  ACC(db)
+//@   ensures [tombstone-deletes] typ == datafile.LogRecordDeleted ==> db.index.model == store(old(db.index.model), keyid(key), 0)
+//@   ensures [record-puts]       typ != datafile.LogRecordDeleted ==> db.index.model == store(old(db.index.model), keyid(key), pos)
+//@   ensures [total] db.totalSize == old(db.totalSize) + pos.Size && db.reclaimSize >= old(db.reclaimSize) && db.reclaimSize <= old(db.reclaimSize) + 8589934592
+//@   modifies db.totalSize, db.reclaimSize, db.index.model, db.index.count, db.index.live
+
+//@ func (*xixi_kv.DB).loadIndexFromDataFiles
+//@   props C02 C04 C17 C12 C16
+//@   unshared db
+//@   requires [db]    db.index != nil && db.activeFile != nil && db.olderFiles != nil && INV_df(db.activeFile) && !db.activeFile.closed && db.activeFile.kind == datafile.DataFileSuffix && olderInv(db) && olderFlushed(db)
+//@   requires [ids]   forall i :: {fileIds[i]} 0 <= i && i < len(fileIds) ==> fileIds[i] == db.activeFile.ID || has(db.olderFiles, fileIds[i])
+//@   requires [acc]   ACC(db) && db.totalSize == 0 || (ACC(db) && db.totalSize <= 4611686018427387904 && db.reclaimSize <= 4611686018427387904)
+//@   ensures [acc]    result == nil ==> ACC(db)
+//@   ensures [foreign-errors] !engineErr(result)
+//@   at (*xixi_kv.DB).loadIndexFromDataFiles$1 assert [applied-at-its-own-position] arg2 != nil
+//@   at (*xixi_kv.DB).loadIndexFromDataFiles$1 assume [byte-counters-do-not-overflow] db.totalSize <= 6917529027641081856 && db.reclaimSize <= 6917529027641081856
+//@   content
+//@   modifies db.totalSize, db.reclaimSize, db.index.model, db.index.count, db.index.live
+//@   loop 1
+//@     invariant [acc] ACC(db) && db.index != nil && db.activeFile == old(db.activeFile) && db.olderFiles == old(db.olderFiles) && transactionRecords != nil && fresh(transactionRecords)
+//@     invariant [pending] forall id, j :: {transactionRecords[id][j]} has(transactionRecords, id) && 0 <= j && j < len(transactionRecords[id]) ==> transactionRecords[id][j] != nil && transactionRecords[id][j].Record != nil && transactionRecords[id][j].Pos != nil && transactionRecords[id][j].Record.Type != datafile.LogRecordBatchFinished
+//@     invariant [pending-own] forall id :: {transactionRecords[id]} has(transactionRecords, id) ==> arr(transactionRecords[id]) == 0 || fresh(transactionRecords[id])
+//@   loop 2
+//@     invariant [acc] ACC(db) && db.index != nil && db.activeFile == old(db.activeFile) && db.olderFiles == old(db.olderFiles) && transactionRecords != nil && fresh(transactionRecords)
+//@     invariant [reader] INV_reader(reader) && reader.dataFile.kind == datafile.DataFileSuffix && !reader.dataFile.closed
+//@     invariant [pending] forall id, j :: {transactionRecords[id][j]} has(transactionRecords, id) && 0 <= j && j < len(transactionRecords[id]) ==> transactionRecords[id][j] != nil && transactionRecords[id][j].Record != nil && transactionRecords[id][j].Pos != nil && transactionRecords[id][j].Record.Type != datafile.LogRecordBatchFinished
+//@     invariant [pending-own] forall id :: {transactionRecords[id]} has(transactionRecords, id) ==> arr(transactionRecords[id]) == 0 || fresh(transactionRecords[id])
+//@   loop 3
+//@     invariant [acc] ACC(db) && db.index != nil && db.activeFile == old(db.activeFile) && db.olderFiles == old(db.olderFiles) && transactionRecords != nil && fresh(transactionRecords)
+//@     invariant [reader] INV_reader(reader) && reader.dataFile.kind == datafile.DataFileSuffix && !reader.dataFile.closed
+//@     invariant [pending] forall id, j :: {transactionRecords[id][j]} has(transactionRecords, id) && 0 <= j && j < len(transactionRecords[id]) ==> transactionRecords[id][j] != nil && transactionRecords[id][j].Record != nil && transactionRecords[id][j].Pos != nil && transactionRecords[id][j].Record.Type != datafile.LogRecordBatchFinished
+//@     invariant [pending-own] forall id :: {transactionRecords[id]} has(transactionRecords, id) ==> arr(transactionRecords[id]) == 0 || fresh(transactionRecords[id])
